@@ -46,6 +46,8 @@ def value_piece(ex, V, tref, v, mode, ins, lenval=None):
     if tref.kind in ("int", "enum"):
         return V.enc(ex, v, tref.under)
     if tref.kind == "bool":
+        if z3.is_int(v):
+            v = v != 0               # a bool element of an array modelled as a sequence of integers: Python truthiness
         return V.enc(ex, z3.If(v, I(1), I(0)), tref.under)
     if tref.kind in ("string", "encoded_string"):
         p = V.sb(ex, v.t, mode)
